@@ -11,5 +11,8 @@ func emitAll(repo string) error {
 	if err := emitCanSkip(repo); err != nil {
 		return err
 	}
+	if err := emitLifespanTable(repo); err != nil {
+		return err
+	}
 	return nil
 }
